@@ -15,7 +15,7 @@ import (
 
 func init() {
 	Register(&Rule{ID: "DIFFENTRY", Props: []string{"C06", "C07"}, Min: 4,
-		Doc: "(1) in DiffIter, DiffLinks and StartDiff no success return (nil error constant) is reachable without a preceding call that creates the diff state: the entry points do not answer 'no differences' on their own; " +
+		Doc: "(1) in DiffIter, DiffLinks, StartDiff and every function between them and the creation of the diff state no success return (nil error constant) is reachable without a preceding call that creates the diff state: the entry points do not answer 'no differences' on their own; " +
 			"(2) every function returning a *diffState returns an object allocated by that very call, and the memo maps stored into it there are made by that call: no pooling, no package-level state; " +
 			"(3) where such a function hands a tree's root (Mast.root) to a stack, the callee tests the root for being an entry-less in-memory node (isEmpty) first: the placeholder root of a tree loaded from an empty Root belongs to no version and has no name.",
 		Run: runDIFFENTRY})
@@ -58,11 +58,38 @@ func runDIFFENTRY(c *Ctx) {
 		return false
 	}
 	// (1)
+	// the entry points, and every function between them and the creation of the state (the engine `diff`)
+	var chainFns []*ssa.Function
+	inChain := map[*ssa.Function]bool{}
 	for _, name := range []string{"(*Mast).DiffIter", "(*Mast).DiffLinks", "(*Mast).StartDiff"} {
-		fn := c.MustFunc(name)
-		if fn == nil {
-			continue
+		if fn := c.MustFunc(name); fn != nil && !inChain[fn] {
+			inChain[fn] = true
+			chainFns = append(chainFns, fn)
 		}
+	}
+	for qi := 0; qi < len(chainFns); qi++ {
+		for _, ci := range CallsOf(chainFns[qi]) {
+			if !reachesCtor(ci) {
+				continue
+			}
+			for _, callee := range c.Facts.Callees(ci) {
+				if !inChain[callee] && !isCtor[callee] && callee.Pkg != nil && callee.Pkg.Pkg.Path() == ir.MastPath && ir.ErrorResultIndex(callee.Signature) >= 0 {
+					reaches := false
+					for f := range c.Facts.Reach(callee) {
+						if isCtor[f] {
+							reaches = true
+						}
+					}
+					if reaches {
+						inChain[callee] = true
+						chainFns = append(chainFns, callee)
+					}
+				}
+			}
+		}
+	}
+	for _, fn := range chainFns {
+		name := ir.FuncName(fn)
 		ei := ir.ErrorResultIndex(fn.Signature)
 		var engine []ssa.CallInstruction
 		for _, ci := range CallsOf(fn) {
